@@ -306,9 +306,24 @@ func (f *FakeWS) close() error {
 	return nil
 }
 
-func (f *FakeWS) write(typ int, data []byte) error {
+var errWSTimeout = errors.New("fakews: write control: i/o timeout")
+
+// write appends one frame; with a non-zero deadline (WriteControl) it gives up
+// when the write lock or room in the peer's window cannot be had in time, as
+// gorilla's WriteControl does.
+func (f *FakeWS) write(typ int, data []byte, deadline time.Time) error {
 	h := f.wr
-	h.wlock <- struct{}{}
+	var expired <-chan time.Time
+	if !deadline.IsZero() {
+		t := time.NewTimer(time.Until(deadline))
+		defer t.Stop()
+		expired = t.C
+	}
+	select {
+	case h.wlock <- struct{}{}:
+	case <-expired:
+		return errWSTimeout
+	}
 	defer func() { <-h.wlock }()
 	f.tok.enter()
 	defer f.tok.leave()
@@ -329,13 +344,18 @@ func (f *FakeWS) write(typ int, data []byte) error {
 		}
 		f.c.Probe("net_writer_blocked_window_full")
 		f.tok.leave()
-		<-h.space
+		select {
+		case <-h.space:
+		case <-expired:
+			f.tok.enter()
+			return errWSTimeout
+		}
 		f.tok.enter()
 	}
 }
 
 func (f *FakeWS) WriteControl(messageType int, data []byte, deadline time.Time) error {
-	return f.write(messageType, data)
+	return f.write(messageType, data, deadline)
 }
 
 // WriteMessage: like gorilla/websocket, which allows one concurrent writer
@@ -346,7 +366,7 @@ func (f *FakeWS) WriteMessage(messageType int, data []byte) error {
 		f.c.Violf("panic: concurrent write to websocket connection (two overlapping WriteMessage calls on %s; gorilla/websocket panics here)", f.name)
 	}
 	f.isWriting = true
-	err := f.write(messageType, data)
+	err := f.write(messageType, data, time.Time{})
 	f.isWriting = false
 	return err
 }
